@@ -12,6 +12,7 @@ import (
 	"regexp"
 	"strings"
 	"text/template"
+	"time"
 
 	"github.com/hyperledger/firefly-signer/pkg/ethsigner"
 	"github.com/hyperledger/firefly-signer/pkg/ethtypes"
@@ -362,6 +363,70 @@ func listViews(conf *fswallet.Config) []any {
 	return out
 }
 
+// c08ListenerDir: the account list with the file-system listener ON. After start-up a sub-directory whose name matches
+// the naming rule and a real key file appear; once the listener has announced the file, the account list must hold the
+// file's address and never the directory's — before and after a Refresh. Judged against the property directly.
+func c08ListenerDir(c *Ctx, root string, idx int) {
+	r := c.R
+	ctx := context.Background()
+	dir := path.Join(root, fmt.Sprintf("ld%d", idx))
+	_ = os.MkdirAll(dir, 0o755)
+	conf := &fswallet.Config{Path: dir, SignerCacheSize: "1MB", SignerCacheTTL: "1h"}
+	conf.Metadata.Format = "none"
+	mode := "ext"
+	if idx%2 == 1 {
+		conf.Filenames.PrimaryMatchRegex = fswRegex
+		conf.Filenames.PrimaryExt = ".json"
+		mode = "regex"
+	} else {
+		conf.Filenames.PrimaryExt = ".key.json"
+	}
+	w, err := fswallet.NewFilesystemWallet(ctx, conf)
+	if err != nil {
+		return
+	}
+	if err := w.Initialize(ctx); err != nil {
+		return
+	}
+	dirAddr, fileAddr := hx(r.Bytes(20)), hx(r.Bytes(20))
+	nameOf := func(a string) string {
+		if mode == "regex" {
+			return "UTC--2024-01-01T00-00-00Z--" + a + ".json"
+		}
+		return a + ".key.json"
+	}
+	_ = os.Mkdir(path.Join(dir, nameOf(dirAddr)), 0o755)
+	_ = os.WriteFile(path.Join(dir, nameOf(dirAddr), "inner"), []byte("x"), 0o600) // a write event inside it, too
+	_ = os.WriteFile(path.Join(dir, nameOf(fileAddr)), []byte("{}"), 0o600)
+	listed := func() []any {
+		accs, _ := w.GetAccounts(ctx)
+		out := []any{}
+		for _, a := range accs {
+			out = append(out, hx(a[:]))
+		}
+		return out
+	}
+	has := func(l []any, a string) bool {
+		for _, x := range l {
+			if x == a {
+				return true
+			}
+		}
+		return false
+	}
+	deadline := time.Now().Add(3 * time.Second)
+	for !has(listed(), fileAddr) && time.Now().Before(deadline) {
+		time.Sleep(10 * time.Millisecond)
+	}
+	time.Sleep(30 * time.Millisecond)
+	before := listed()
+	_ = w.Refresh(ctx)
+	after := listed()
+	_ = w.Close()
+	c.Add(map[string]any{"op": "fsw.listenerdir", "noModel": true, "mode": mode, "dirAddr": dirAddr, "fileAddr": fileAddr,
+		"implResults": map[string]any{"before": before, "after": after}}, "listenerdir."+mode)
+}
+
 func init() {
 	register(&Suite{
 		Prop: "C08",
@@ -456,11 +521,39 @@ func init() {
 				delete(sc.req, "addrs")
 				c.Add(sc.req, "mode."+str(sc.req, "mode"))
 			}
+			for i := 0; i < 6; i++ {
+				c08ListenerDir(c, root, i)
+			}
 			_ = os.RemoveAll(root)
 		},
 		Impl: func(req map[string]any) any { return req["implResults"] },
 		Judge: func(c *Ctx, req map[string]any, impl any, orc map[string]any) []Finding {
 			var fs []Finding
+			if str(req, "op") == "fsw.listenerdir" {
+				m, _ := impl.(map[string]any)
+				for _, when := range []string{"before", "after"} {
+					l, _ := m[when].([]any)
+					hasDir, hasFile := false, false
+					for _, x := range l {
+						if x == req["dirAddr"] {
+							hasDir = true
+						}
+						if x == req["fileAddr"] {
+							hasFile = true
+						}
+					}
+					if hasDir {
+						fs = append(fs, Finding{Kind: "violation", Region: "fsw.accounts.subdir", Detail: "a sub-directory whose name matches the naming rule is listed as an account (listener on, " + when + " Refresh)"})
+					}
+					if !hasFile {
+						fs = append(fs, Finding{Kind: "violation", Region: "fsw.accounts.listener", Detail: "a key file that appeared while the listener was running is not in the account list (" + when + " Refresh)"})
+					}
+					if len(l) > 2 || (len(l) == 2 && !hasDir) {
+						fs = append(fs, Finding{Kind: "violation", Region: "fsw.accounts.extra", Detail: "the account list holds addresses no file was created for"})
+					}
+				}
+				return fs
+			}
 			ires, _ := impl.([]any)
 			mres, _ := orc["results"].([]any)
 			ops, _ := req["ops"].([]any)
